@@ -8,7 +8,8 @@ FUNCTIONS = ['flowdyn.integration.explicit.step', 'flowdyn.integration.rk2.step'
              'flowdyn.integration.timemodel.add_res', 'flowdyn.integration.timemodel.calcrhs', 'flowdyn.integration.timemodel.propagator',
              'flowdyn.field.fdata.{__init__,copy,set}',
              'class attributes _butcher/_beta of rk2_heun, rk3_heun, rk3ssp, rk4, lsrk25bb, lsrk26bb, lsrk4']
-BOUNDS = ('the right-hand side is a stub returning fresh unconstrained values at every call (any RHS: nonlinear, '
+BOUNDS = ('(second-step clause: the same integrator object steps again from any state, time and dt on a two-equation field) '
+          'the right-hand side is a stub returning fresh unconstrained values at every call (any RHS: nonlinear, '
           'non-autonomous); field of 2 components (the step is componentwise); y0, dt, t0 symbolic; all explicit classes '
           'of flowdyn.integration. No bound on the RHS.')
 OUTSIDE = ('double rounding of the coefficients: order conditions are asserted to 8*2^-53, the published Bogey-Bailly '
@@ -31,7 +32,71 @@ TOL = Fraction(8, 2 ** 53)
 
 
 def configs(tier):
-    return [{'integrator': k} for k in ORDER] + [{'integrator': k, 'dt': 'local'} for k in ORDER]
+    return ([{'integrator': k} for k in ORDER] + [{'integrator': k, 'dt': 'local'} for k in ORDER] +
+            [{'integrator': k, 'part': 'second-step'} for k in ORDER])
+
+
+def _tableau(B, name, n):
+    """(s, A, b, c) read from the real step on unit stub responses"""
+    zero = B.array([B.const(0)] * n)
+    one = B.array([B.const(1)] * n)
+    _, d0, _ = _run(B, name, zero.copy(), B.const(1), B.const(0))
+    s = len(d0.calls)
+    A = [[B.const(0)] * s for _ in range(s)]
+    b = [B.const(0)] * s
+    for j in range(s):
+        def fn(k, time, data, j=j):
+            return [(one if k == j else zero).copy()]
+        _, dj, fj = _run(B, name, zero.copy(), B.const(1), B.const(0), fn=fn)
+        for i in range(min(s, len(dj.calls))):
+            A[i][j] = dj.calls[i][1][0][0]
+        b[j] = fj.data[0][0]
+    c = []
+    for i in range(s):
+        rs = B.const(0)
+        for j in range(s):
+            rs = rs + A[i][j]
+        c.append(rs)
+    return s, A, b, c
+
+
+def _second_step(cfg, B):
+    """the SAME integrator object takes a second step (another dt, another state, a field with two equations): the step is again
+    the Runge-Kutta scheme of the extracted tableau - nothing is carried over from the first step, no equation is mixed with another"""
+    name = cfg['integrator']
+    n, neq = 2, 2
+    s, A, b, c = _tableau(B, name, n)
+    solver, disc, model, mesh = stubs.make(B, name, n=n, neq=neq)
+    t0, dt1, dt2 = B.var('t0'), B.pos('dt1'), B.pos('dt2')
+    f = B.fd.field.fdata(model, mesh, [B.vararray('y%d' % q, n) for q in range(neq)], t=t0)
+    solver.step(f, dt1)
+    B.ob('first-step:stage-count', 'true', B.boolean(len(disc.calls) == s), meta={'calls': len(disc.calls)})
+    # from ANY state and time (generalises the state reached by the first step)
+    y1 = [B.vararray('z%d' % q, n) for q in range(neq)]
+    t1 = B.var('t1')
+    f.data = [y.copy() for y in y1]
+    f.time = t1
+    solver.step(f, dt2)
+    B.ob('second-step:stage-count', 'true', B.boolean(len(disc.calls) == 2 * s), meta={'calls': len(disc.calls)})
+    if len(disc.calls) != 2 * s:
+        return
+    K = disc.results[s:]
+    for i in range(s):
+        ti, Yi = disc.calls[s + i]
+        B.ob('second-step:stage-time[%d]' % i, 'le', abs(ti - (t1 + c[i] * dt2)), B.const(TOL) * dt2, tol=1e-9)
+        for q in range(neq):
+            for m in range(n):
+                ref = y1[q][m]
+                for j in range(s):
+                    ref = ref + dt2 * (A[i][j] * K[j][q][m])
+                B.ob('second-step:stage-arg[%d]:eq%d[%d]' % (i, q, m), 'eq', Yi[q][m], ref)
+    for q in range(neq):
+        for m in range(n):
+            ref = y1[q][m]
+            for j in range(s):
+                ref = ref + dt2 * (b[j] * K[j][q][m])
+            B.ob('second-step:result:eq%d[%d]' % (q, m), 'eq', f.data[q][m], ref)
+    B.ob('second-step:time-advance', 'le', abs(f.time - (t1 + dt2)), B.const(TOL) * dt2, tol=1e-9)
 
 
 def _run(B, name, y0, dt, t0, fn=None, n=2):
@@ -42,6 +107,8 @@ def _run(B, name, y0, dt, t0, fn=None, n=2):
 
 
 def harness(cfg, B):
+    if cfg.get('part') == 'second-step':
+        return _second_step(cfg, B)
     name = cfg['integrator']
     n = 2
     y0 = B.vararray('y', n)
